@@ -26,6 +26,15 @@ KINDS_DBG = ["int", "float"]
 KINDS_NEST = ["absent", "null", "o_k", "o_kj", "l_objs", "l_obj_xy", "l_objs_xy_x", "o_xy", "o_xyz", "l_empty", "o_empty", "s_abc",
               "o_parent1", "o_parent2", "l_objs_xys_x", "l_lists_mixed", "l_objs_xu", "l_objs_xopt"]
 
+# Objects over the two keys p, q that re-use the same keys one level down: each of p, q is absent (-), an int (i), a short string (s)
+# or a sub-object holding p (P), q (Q) or both (B) as ints.  Two different shapes can have the same flattened key/type sequence
+# ({"p": {"p": 1, "q": 2}} / {"p": {"p": 1}, "q": 2}), which is what distinguishes a structural hash from a textual one.
+_SH_OPTS = ["-", "i", "s", "P", "Q", "B"]
+KINDS_SHAPES = [f"sh:{a}{b}" for a in _SH_OPTS for b in _SH_OPTS if (a, b) != ("-", "-")]
+# the same shapes as the two elements of one list
+KINDS_SHAPE_LISTS = [f"shl:{a}{b}{c}{d}" for a in _SH_OPTS for b in _SH_OPTS for c in _SH_OPTS for d in _SH_OPTS
+                     if (a, b) != ("-", "-") and (c, d) != ("-", "-") and (a, b) < (c, d)]
+
 ATOMS = {"s_abc": "abc", "s_xyz": "xyz", "s_int": "12", "s_float": "1.5", "s_bool": "true", "s_long": LONG, "s_empty": "",
          "s_date": "2020-01-02", "s_time": "11:22:33", "s_datetime": "2020-01-02T11:22:33", "s_near": NEAR, "s_int2": "-7",
          "s_nan": "nan", "s_True": "True", "s_bool_pad": " true", "s_int_pad": " 12\n", "s_float_pad": "\t1.5 ", "s_False_nl": "False\n", "s_pad_plain": " kg", "s_pad_plain2": "lb\t", "s_uni": "\u041c\u043e\u0441\u043a\u0432\u0430 \u041a\u0438\u0457\u0432",
@@ -43,6 +52,19 @@ def leaf(ch, tag, typ, sym):
     raise ValueError(typ)
 
 
+def _shape(ch, tag, code, sym):
+    obj = {}
+    for key, c in zip("pq", code):
+        t = f"{tag}.{key}"
+        if c == "i":
+            obj[key] = leaf(ch, t, "int", sym)
+        elif c == "s":
+            obj[key] = "abc"
+        elif c in "PQB":
+            obj[key] = {k: leaf(ch, f"{t}.{k}", "int", sym) for k in {"P": "p", "Q": "q", "B": "pq"}[c]}
+    return obj
+
+
 def build(ch, tag, kind, sym=False):
     """JSON value for `kind` (ABSENT for a missing key)."""
     if kind == "absent":
@@ -53,6 +75,10 @@ def build(ch, tag, kind, sym=False):
         return leaf(ch, tag, kind, sym)
     if kind in ATOMS:
         return ATOMS[kind]
+    if kind.startswith("sh:"):
+        return _shape(ch, tag, kind[3:], sym)
+    if kind.startswith("shl:"):
+        return [_shape(ch, tag + "[0]", kind[4:6], sym), _shape(ch, tag + "[1]", kind[6:8], sym)]
     if kind == "l_mixed_ref_int":      # a list mixing an object with a scalar: the union holds a raw nested object
         return [{"ref": leaf(ch, tag + "[0].ref", "int", sym)}, leaf(ch, tag + "[1]", "int", sym)]
     if kind == "l_mixed_ref_str":
